@@ -158,8 +158,24 @@ def build_graph(M, n, edges, roles, rng=None, form=0):
     return net, nodes
 
 
+def annotate(net, rng):
+    """Ordinary networkx attributes stored on the public graph (positions for drawing, labels, lengths):
+    they say nothing about origins, destinations or links."""
+    G_ = net.G
+    for i_, n_ in enumerate(list(G_.nodes)):
+        if rng.random() < 0.7:
+            G_.nodes[n_]["pos"] = (float(i_), 0.0)
+        if rng.random() < 0.3:
+            G_.nodes[n_]["label"] = "x"
+    for u_, v_ in list(G_.edges):
+        if rng.random() < 0.5:
+            G_.edges[u_, v_]["length"] = 1.0
+
+
 def query(net, rng):
     """Both modes, in random order (so a stale memo from one call would show in the other)."""
+    if rng.random() < 0.2:
+        annotate(net, rng)
     modes = [False, True]
     if rng.random() < 0.5:
         modes.reverse()
